@@ -287,7 +287,7 @@ def main(chk):
                 cid += 1
                 cases.append(dict(id=cid, k=4, edges=edges, perms=[rng.sample(range(4), 4) for _ in range(3)], build=False))
     # three-level cross-library chains and libraries that contribute only enums (no functions at all)
-    for n in range(chk.pick(12, 150)):
+    for n in range(chk.pick(12, 600)):
         k = rng.choice([3, 3, 4])
         pairs = [(i, j) for i in range(k) for j in range(k) if i != j]
         edges = [p for p in pairs if rng.random() < 0.4]
